@@ -954,6 +954,36 @@ def _run(res, tier, seed, proofs_ok):
                                                 cvec(drc), cres(pout, cvec)))
                         proj_meta.append((pt, top, drc))
     _stage('function-level stream (implementation + oracle)')
+    # C07_flipped_set_lattice_error on the implementation: k flipped senses
+    # leave 6 - k intersections
+    import re as _re
+    flip_bad = 0
+    for _ in range(60 if quick else 600):
+        hexa = gen.gen_hexagon(rng)
+        surfs = gen.surfaces_of(hexa, gen.gen_listing(rng), rng)
+        flips = [k for k in range(6) if rng.random() < 0.4] or [rng.randrange(6)]
+        for k in flips:
+            surfs[k] = (surfs[k][0], -surfs[k][1])
+        try:
+            LT.hexSortSides(surfs[:6])
+            got = 'accepted'
+        except LT.LatticeError as exc:
+            m = _re.search(r'not enough intersections \((\d+)\)', str(exc))
+            got = int(m.group(1)) if m else str(exc)[:60]
+        except Exception as exc:       # pylint: disable=broad-except
+            got = type(exc).__name__
+        res.count(f'flipped senses: {len(flips)}')
+        if got != 6 - len(flips):
+            flip_bad += 1
+            res.violation('correspondence',
+                          f'{len(flips)} flipped senses: hexSortSides -> {got}, '
+                          f'the theorem gives {6 - len(flips)} intersections',
+                          {'input': {'surfaces': surfs, 'flips': flips},
+                           'theorem_or_correspondence':
+                           'C07_flipped_set_lattice_error'}, found_input=False)
+    res.obligation('sweep: k flipped senses leave 6 - k intersections '
+                   '(C07_flipped_set_lattice_error on the implementation)',
+                   flip_bad == 0, f'{flip_bad} disagreements')
     # degenerate numeric cases
     for _ in range(40):
         nrm = tuple(float(rng.choice([-1, 0, 1, 2])) for _ in range(3))
